@@ -1,5 +1,6 @@
 import VOPyVerif.Proofs.Empirical
 import VOPyVerif.Proofs.EmpiricalInvariance
+import VOPyVerif.Proofs.EmpiricalRunning
 /-!
 # C16 — the empirical model reports per-design running statistics of all samples
 
@@ -429,5 +430,122 @@ example :
     simp only [List.mem_singleton] at ho
     subst ho
     exact Or.inl (by decide +kernel)
+
+end VOPy.C16
+
+/-! # RUNNING STATISTICS — the batch formulas are what an incremental accumulator holds
+
+`update()` recomputes `np.mean` / `np.var` over all stored samples.  The theorems below show that the
+numbers it reports obey the one-sample-at-a-time (Welford) recurrences and stay inside the range of the
+samples, so "per-design running statistics of all samples" holds literally: nothing is forgotten,
+nothing is weighted differently, and no value outside the data can be reported.  They quantify over
+every sample list and every new sample (helper lemmas: `Proofs/EmpiricalRunning.lean`). -/
+namespace VOPy.C16
+open VOPy VOPy.Empirical
+
+/-- **Running mean.**  When one more sample `y` arrives for a design holding the samples `S`, every
+entry `j < m` of the reported mean moves by `(y_j − old mean_j)/(n+1)`, `n = |S|` — also for the first
+sample (`n = 0`, old "mean" the zero vector of an unsampled design). -/
+theorem running_mean (m : Nat) (S : List Vec) (y : Vec) (j : Nat) (hj : j < m) :
+    (meanOf m (S ++ [y])).getD j 0 =
+      (meanOf m S).getD j 0 + (y.getD j 0 - (meanOf m S).getD j 0) / ((S.length : Rat) + 1) := by
+  have hcol : colOf j (S ++ [y]) = colOf j S ++ [y.getD j 0] := by simp [colOf]
+  by_cases hS : S = []
+  · subst hS
+    simp [meanOf, colOf, mean, zeros, hj]
+  · have hpos : 0 < S.length := List.length_pos_iff.mpr hS
+    have hlen : (colOf j S).length = S.length := by simp [colOf]
+    simp only [meanOf, List.length_append, List.length_cons, List.length_nil, gt_iff_lt,
+      Nat.lt_add_left_iff_pos, Nat.zero_lt_succ, ↓reduceIte, hpos]
+    simp only [List.getD_eq_getElem?_getD, List.getElem?_map, List.getElem?_range hj,
+      Option.map_some, Option.getD_some]
+    rw [hcol, mean_snoc, hlen]
+    simp [List.getD_eq_getElem?_getD]
+
+/-- **Running variance (Welford).**  With `n = |S| ≥ 2` samples held and one more sample `y`, the
+diagonal entry `j` of the reported covariance satisfies
+`(n+1)·var' = n·var + (y_j − mean_j)·(y_j − mean'_j)` (entries read from the reported matrices and
+means). -/
+theorem running_variance (m : Nat) (noise : Rat) (S : List Vec) (y : Vec) (j : Nat) (hj : j < m)
+    (hS : 2 ≤ S.length) :
+    ((S.length : Rat) + 1) * (((varOf m noise (S ++ [y]))[j]?.bind (·[j]?)).getD 0) =
+      (S.length : Rat) * (((varOf m noise S)[j]?.bind (·[j]?)).getD 0)
+        + (y.getD j 0 - (meanOf m S).getD j 0) * (y.getD j 0 - (meanOf m (S ++ [y])).getD j 0) := by
+  have hcol : colOf j (S ++ [y]) = colOf j S ++ [y.getD j 0] := by simp [colOf]
+  have hlen : (colOf j S).length = S.length := by simp [colOf]
+  have h1 : 1 < S.length := hS
+  have h1' : 1 < (S ++ [y]).length := by simp; omega
+  have h0 : 0 < S.length := by omega
+  have h0' : 0 < (S ++ [y]).length := by simp
+  have hv : ∀ T : List Vec, 1 < T.length →
+      ((varOf m noise T)[j]?.bind (·[j]?)).getD 0 = popVar (colOf j T) := by
+    intro T hT
+    simp only [varOf, gt_iff_lt, hT, ↓reduceIte]
+    rw [diagOf_entry m _ hj hj]
+    simp
+  have hmn : ∀ T : List Vec, 0 < T.length → (meanOf m T).getD j 0 = mean (colOf j T) := by
+    intro T hT
+    simp only [meanOf, gt_iff_lt, hT, ↓reduceIte]
+    simp [List.getD_eq_getElem?_getD, List.getElem?_range hj]
+  rw [hv _ h1', hv _ h1, hmn _ h0, hmn _ h0', hcol]
+  have := sumSqDev_snoc (colOf j S) (y.getD j 0)
+  rw [hlen] at this
+  exact this
+
+/-- **The reported mean stays inside the data.**  For a design holding at least one sample, every
+entry `j < m` of the reported mean lies between any lower and upper bound of the `j`-th coordinates of
+its samples (in particular between their minimum and maximum). -/
+theorem mean_within_samples (m : Nat) (S : List Vec) (hS : S ≠ []) (j : Nat) (hj : j < m) (lo hi : Rat)
+    (h : ∀ y ∈ S, lo ≤ y.getD j 0 ∧ y.getD j 0 ≤ hi) :
+    lo ≤ (meanOf m S).getD j 0 ∧ (meanOf m S).getD j 0 ≤ hi := by
+  have hpos : 0 < S.length := List.length_pos_iff.mpr hS
+  have hmn : (meanOf m S).getD j 0 = mean (colOf j S) := by
+    simp only [meanOf, gt_iff_lt, hpos, ↓reduceIte]
+    simp [List.getD_eq_getElem?_getD, List.getElem?_range hj]
+  have hne : colOf j S ≠ [] := by simpa [colOf] using hS
+  rw [hmn]
+  constructor
+  · apply mean_ge_of_forall_ge _ _ hne
+    intro x hx
+    simp only [colOf, List.mem_map] at hx
+    obtain ⟨y, hy, rfl⟩ := hx
+    exact (h y hy).1
+  · apply mean_le_of_forall_le _ _ hne
+    intro x hx
+    simp only [colOf, List.mem_map] at hx
+    obtain ⟨y, hy, rfl⟩ := hx
+    exact (h y hy).2
+
+/-- **Repeated identical samples.**  A design that received the same vector `y` `n ≥ 2` times reports
+mean `y` (entry by entry) and variance exactly `0` on the diagonal — never the `noise·I` fallback,
+never a negative number. -/
+theorem identical_samples (m : Nat) (noise : Rat) (y : Vec) (n : Nat) (hn : 2 ≤ n) (j : Nat) (hj : j < m) :
+    (meanOf m (List.replicate n y)).getD j 0 = y.getD j 0 ∧
+    ((varOf m noise (List.replicate n y))[j]?.bind (·[j]?)).getD 0 = 0 := by
+  have h1 : 1 < (List.replicate n y).length := by simp; omega
+  have h0 : 0 < (List.replicate n y).length := by simp; omega
+  have hcol : colOf j (List.replicate n y) = List.replicate n (y.getD j 0) := by
+    simp [colOf, List.map_replicate]
+  have hq : (n : Rat) ≠ 0 := by
+    have : 0 < n := by omega
+    exact_mod_cast this.ne'
+  constructor
+  · simp only [meanOf, gt_iff_lt, h0, ↓reduceIte]
+    simp only [List.getD_eq_getElem?_getD, List.getElem?_map, List.getElem?_range hj,
+      Option.map_some, Option.getD_some, hcol]
+    simp only [mean, List.sum_replicate, List.length_replicate, nsmul_eq_mul]
+    field_simp
+  · simp only [varOf, gt_iff_lt, h1, ↓reduceIte]
+    rw [diagOf_entry m _ hj hj, hcol, popVar_const]
+    simp
+
+/-- non-vacuity: three samples `(1,5),(3,5),(8,5)` then a fourth `(0,1)`; the recurrences hold on the
+evaluated reports and the means lie within the sample range -/
+example :
+    meanOf 2 [[1, 5], [3, 5], [8, 5]] = [4, 5] ∧ meanOf 2 [[1, 5], [3, 5], [8, 5], [0, 1]] = [3, 4] ∧
+    varOf 2 (1/4) [[1, 5], [3, 5], [8, 5]] = [[26/3, 0], [0, 0]] ∧
+    varOf 2 (1/4) [[1, 5], [3, 5], [8, 5], [0, 1]] = [[19/2, 0], [0, 3]] ∧
+    ((3 : Rat) + 1) * (19/2) = 3 * (26/3) + (0 - 4) * (0 - 3) := by
+  refine ⟨by decide +kernel, by decide +kernel, by decide +kernel, by decide +kernel, by norm_num⟩
 
 end VOPy.C16
